@@ -113,3 +113,10 @@ Qed.
 Example C01_example_roundtrip :
   canon_message ex_m = ex_m /\ lenN (to_packet ex_m) = 76 /\ decode (to_packet ex_m) = Ok ex_m.
 Proof. vm_compute. split; [reflexivity|split; reflexivity]. Qed.
+
+(* the two header flag words the encoder writes are regenerated from dns.cpp (SrcFacts.v); they are the RFC 6762 values:
+   QR + AA for a response, TC for a truncated message, every other bit - opcode, RD, RA, Z, AD, CD, RCODE - zero on
+   transmission (section 18).  MessageAt reads the flags as a decoder must (liberally); this pins what is written. *)
+Theorem C01_header_flag_words : flags_response_word = 33792 /\ flags_truncated_word = 512.
+Proof. split; reflexivity. Qed.
+Print Assumptions C01_header_flag_words.
